@@ -160,7 +160,9 @@ func (b *BoltStorage) Load(ctx *Context, loc string) ([]Pair, error) {
 		for k, v := c.First(); k != nil; k, v = c.Next() {
 			Log(INFO|STORAGE, ctx, "BoltStorage.Load", "location", loc,
 				"key", string(k), "val", string(v))
-			data = append(data, Pair{k, v})
+			// k and v point into the database's memory map and
+			// are only valid during this transaction: copy them.
+			data = append(data, Pair{append([]byte{}, k...), append([]byte{}, v...)})
 		}
 		return nil
 	})
